@@ -206,6 +206,10 @@ def run_cell(case, res):
             res.count("cells_not_applicable")
             return
         data, kw, expn = b
+        if r.random() < 0.25:
+            # other options that change the head of the generated module must not disturb its encoding declaration
+            kw = dict(kw, future_imports=["annotations"]) if r.random() < 0.6 else dict(kw, imports=["import os"], strict_undefined=True)
+            res.count("cells_with_module_head_options")
         if expn[0] == "ok-as":
             # undeclared non-UTF-8 bytes that happen to be valid UTF-8 mean what UTF-8 says
             ref = T(expn[1])
